@@ -25,7 +25,8 @@ from vlib import core
 CLAUSES = ("compile", "import", "placeholder", "silent-unsupported")
 # thorough: besides the composites, the complete Go lattice (768 configurations) is run on one shape per construct family
 GO_FULL_LATTICE_SHAPES = ("union-scalars", "dunion", "map-of-struct", "array-of-refs", "enum-str", "enum-int", "const-str", "default-str",
-                          "nullable", "optional", "recursive", "time", "any", "intersection", "anon-struct")
+                          "nullable", "optional", "recursive", "time", "any", "intersection", "anon-struct",
+                          "default-enum-optional", "default-enum-nullable", "named-collections-optional", "identifiers-required-typed")
 
 
 # ----------------------------------------------------------------------------------------------
@@ -453,7 +454,7 @@ def run(ctx):
         j = make_job(shape, fmt, cfg)
         jobs.setdefault(j["id"], j)
 
-    per_unit = {"go": 5, "python": 3, "java": 3, "typescript": 3, "php": 3, "jsonschema": 2, "openapi": 2}
+    per_unit = {"go": 4, "python": 2, "java": 2, "typescript": 2, "php": 2, "jsonschema": 1, "openapi": 1}
     for lang in g.LANGS:
         rows = arrays[lang]
         units = [(s, f) for s in shapes for f in sc.FORMATS] + [(s, "ir") for s in irshapes]
@@ -463,7 +464,7 @@ def run(ctx):
                 chosen = [rows[(start + i) % len(rows)] for i in range(min(per_unit[lang], len(rows)))]
                 # the anchor row (every output kind and every generation flag on) is run for every unit in every seed
                 if rows[0] not in chosen:
-                    chosen = [rows[0]] + chosen[:-1]
+                    chosen = [rows[0]] + chosen
             else:
                 chosen = rows
             for c in chosen:
